@@ -20,17 +20,31 @@
 from ...BoundaryCondition.CConversionBoundaryCondition import CConversionBoundaryCondition
 
 
-def writeT4BoundCond(dic_surf_mcnp, ofile):
-    '''Method writing GeomComp to the T4 input file.'''
+def writeT4BoundCond(dic_surf_mcnp, renumbering, surf_used, ofile):
+    '''Write the boundary conditions to the T4 input file.
+
+    :param renumbering: the surface renumbering produced by de-duplication
+        (``None`` if de-duplication was skipped)
+    :param surf_used: the IDs of the surfaces written in the geometry
+    '''
     d_boundCond = CConversionBoundaryCondition(
         dic_surf_mcnp).conversionBoundCond()
-    if not d_boundCond:
+    entries = {}
+    for k, bound_cond in d_boundCond.items():
+        new_k = k if renumbering is None else renumbering.get(k, k)
+        if new_k not in surf_used:
+            # the surface does not bound any converted cell
+            continue
+        kind = bound_cond.typeOfBound
+        if entries.setdefault(new_k, kind) != kind:
+            raise ValueError('conflicting boundary conditions on surface '
+                             f'{new_k} (duplicate of surface {k})')
+    if not entries:
         return
     ofile.write("\nBOUNDARY_CONDITION\n")
-    ofile.write(str(len(d_boundCond)))
+    ofile.write(str(len(entries)))
     ofile.write("\n")
-    for k in d_boundCond.keys():
-        p_typeOfBound = d_boundCond[k].typeOfBound
-        ofile.write("ALL_COMPLETE %s %s\n" % (p_typeOfBound, k))
+    for k, kind in entries.items():
+        ofile.write("ALL_COMPLETE %s %s\n" % (kind, k))
     ofile.write("END_BOUNDARY_CONDITION")
     ofile.write("\n")
